@@ -20,6 +20,8 @@ type restorer struct {
 	currentCheckpoint *Metadata
 	// pendingChunks is a set of pending chunks.
 	pendingChunks map[uint64]bool
+	// generation changes whenever a restore is started or aborted.
+	generation uint64
 }
 
 // Implements Restorer.
@@ -32,6 +34,7 @@ func (rs *restorer) StartRestore(_ context.Context, checkpoint *Metadata) error 
 	}
 
 	rs.currentCheckpoint = checkpoint
+	rs.generation++
 	rs.pendingChunks = make(map[uint64]bool)
 	for idx := range checkpoint.Chunks {
 		rs.pendingChunks[uint64(idx)] = true
@@ -46,6 +49,7 @@ func (rs *restorer) AbortRestore(context.Context) error {
 
 	rs.pendingChunks = nil
 	rs.currentCheckpoint = nil
+	rs.generation++
 
 	return nil
 }
@@ -64,6 +68,7 @@ func (rs *restorer) GetCurrentCheckpoint() *Metadata {
 
 // Implements Restorer.
 func (rs *restorer) RestoreChunk(ctx context.Context, idx uint64, r io.Reader) (bool, error) {
+	var generation uint64
 	chunk, err := func() (*ChunkMetadata, error) {
 		rs.Lock()
 		defer rs.Unlock()
@@ -77,6 +82,7 @@ func (rs *restorer) RestoreChunk(ctx context.Context, idx uint64, r io.Reader) (
 			return nil, ErrChunkAlreadyRestored
 		}
 
+		generation = rs.generation
 		return rs.currentCheckpoint.GetChunkMetadata(idx)
 	}()
 	if err != nil {
@@ -97,6 +103,13 @@ func (rs *restorer) RestoreChunk(ctx context.Context, idx uint64, r io.Reader) (
 
 	rs.Lock()
 	defer rs.Unlock()
+
+	// The restore this chunk belongs to may have been aborted (e.g. by another chunk that failed
+	// proof verification) while the chunk was being imported. Such a chunk must neither be reported
+	// as the last one of the restore, nor be accounted to a restore that has been started since.
+	if rs.generation != generation {
+		return false, ErrNoRestoreInProgress
+	}
 
 	// Mark the given chunk as restored.
 	delete(rs.pendingChunks, idx)
